@@ -236,6 +236,16 @@ let run (line : string) : unit =
                  (int_of_z st1.s_polls)
            | (Aborted _, _) -> print_string "root aborted\n"
            | (OutOfFuel, _) -> print_string "!! out of fuel\n"))
+  | "ref" ->
+      (* ref <depth>: exhaustive reference value of the root (Spec/Negamax.v over the model's game functions) *)
+      with_game cmd (fun g ->
+          let depth = max 1 (match ints_of rest with d :: _ -> d | [] -> 1) in
+          let moves = root_moves g in
+          (match checked_moves g with
+           | [_] -> print_string "ref only\n"
+           | _ ->
+               let (v, blocked) = chess_rootref (nat_of_int 200) (nat_of_int depth) g moves in
+               Printf.printf "ref score=%d blocked=%d moves=%d\n" (int_of_z v) (if blocked then 1 else 0) (List.length moves)))
   | "tables" ->
       let table name t = Printf.printf "table %s %s\n" name (String.concat "," (List.map (fun s -> string_of_int (int_of_z s)) t)) in
       table "QUEEN_SCORES" qUEEN_SCORES; table "ROOK_SCORES" rOOK_SCORES;
